@@ -459,6 +459,7 @@ struct LPlan
   int reconnect{0};      // 0 none; else number of reconnects issued from inside the close callback
   int reconnectTarget{0};
   bool waitBeforeStop{false}; // wait (bounded) for every definite cause before the final stop
+  bool restart{false};        // after the stop: start() again, one accept + one connect, stop() (ids stay distinct)
   std::vector<LOp> ops;
 };
 
@@ -467,7 +468,7 @@ std::string describeLife(const LPlan &p)
   std::string s = p.udp ? "udp" : "tcp";
   s += pbt::Fmt() << " edge=" << p.edge << " hiRes=" << p.hiRes << " batch=" << p.batching << " gc=" << p.gcCase
                   << " connTmo=" << p.connectTimeoutMs << " mwq=" << p.maxWriteQueue << " reconnectInClose=" << p.reconnect
-                  << "/" << targetName(p.reconnectTarget) << " waitBeforeStop=" << p.waitBeforeStop << " ops:";
+                  << "/" << targetName(p.reconnectTarget) << " waitBeforeStop=" << p.waitBeforeStop << " restart=" << p.restart << " ops:";
   for (auto &o : p.ops)
   {
     s += std::string(" ") + opName(o.op);
@@ -606,10 +607,10 @@ void runLifecycle(const LPlan &plan, pbt::Case &c)
     t->stop();
     return;
   }
-  const ListenerId lid = lr.value();
+  ListenerId lid = lr.value();
   // the listening port is found without trusting iora more than necessary: it is only
   // used to address the listener
-  const std::uint16_t ioraPort = t->getListenerAddress(lid).port;
+  std::uint16_t ioraPort = t->getListenerAddress(lid).port;
   if (ioraPort == 0)
   {
     c.inconclusive("listener address unknown");
@@ -1062,6 +1063,45 @@ void runLifecycle(const LPlan &plan, pbt::Case &c)
   else
     causeKinds.insert(Cause::Stop);
 
+  // ---- optional second run of the same transport: identifiers must stay distinct, the new
+  // sessions must be announced, carry data and get their one close like any other -----------
+  if (plan.restart && !bail && !c.failed())
+  {
+    stopped = false;
+    if (!t->start().isOk())
+    {
+      c.fail("C02/restart-failed", "start() after an orderly stop() failed");
+      return;
+    }
+    auto lr2 = t->addListener("127.0.0.1", 0, TlsMode::None);
+    std::uint16_t p2 = lr2.isOk() ? t->getListenerAddress(lr2.value()).port : 0;
+    if (p2 != 0)
+    {
+      lid = lr2.value();
+      ioraPort = p2;
+      if (sess.size() >= 7) sess.erase(sess.begin(), sess.begin() + 2); // room for two more (all closed by the stop)
+      const std::size_t before = sess.size();
+      newAccept();
+      if (!bail) newConnect(TListening, false, false, true);
+      for (std::size_t i = before; i < sess.size() && !bail; ++i)
+      {
+        Sess &s = sess[i];
+        // one datagram / a few bytes from the peer: the restarted engine must still dispatch
+        if (!udp && s.rawFd >= 0 && s.established) c02raw::sendAll(s.rawFd, "again", 5, 200);
+        if (udp && s.rawFd >= 0 && s.ioraPort) c02raw::udpSendTo(s.rawFd, s.ioraPort, "again", 5);
+        // and a peer FIN (TCP) must still be noticed while running
+        if (!udp && i == before) peerFin(s);
+      }
+      if (!bail && !quiesce())
+      {
+        doStop();
+        return;
+      }
+      c.label("restarted");
+    }
+    doStop();
+  }
+
   c02log::CheckOpts o;
   o.stoppedOrderly = true;
   o.syncIdsAnnounced = udp;
@@ -1116,6 +1156,7 @@ LPlan genLifePlan(pbt::Src &src, bool udp)
   p.reconnect = src.coin(1, 3) ? static_cast<int>(src.range(1, 3)) : 0;
   p.reconnectTarget = static_cast<int>(src.weighted({3, 2, 1}));
   p.waitBeforeStop = src.coin(1, 2);
+  p.restart = src.coin(1, 6);
   auto rows = src.rows(22, 4, 0, 999);
   // weighted op table
   static const int wt[] = {NewAccept, NewAccept, NewAccept, NewAccept, NewConnect, NewConnect, NewConnect, NewConnect, NewSync,
@@ -1194,6 +1235,24 @@ PBT_REGRESSION(reconnect_in_close_during_stop_udp)
   p.reconnect = 1;
   p.reconnectTarget = TListening;
   p.ops = {{NewAccept, 0, 0, 0}};
+  runLifecycle(p, c);
+}
+// restart: ids stay distinct, the restarted engine announces, reads and closes (C05-1 shows up here as
+// a use-after-free under ASan / a connection that is never read nor closed without it)
+PBT_REGRESSION(restart_ids_and_service_tcp)
+{
+  LPlan p;
+  p.udp = false;
+  p.restart = true;
+  p.ops = {{NewAccept, 0, 0, 0}, {NewConnect, TListening, 1, 0}, {PeerSend, 0, 0, 0}};
+  runLifecycle(p, c);
+}
+PBT_REGRESSION(restart_ids_and_service_udp)
+{
+  LPlan p;
+  p.udp = true;
+  p.restart = true;
+  p.ops = {{NewAccept, 0, 0, 0}, {NewConnect, TListening, 1, 0}, {PeerSend, 0, 0, 0}};
   runLifecycle(p, c);
 }
 // every close cause once, sequentially, TCP
